@@ -118,9 +118,5 @@ Proof. intros Hs Hne. inversion Hs; subst; cbn in *; try contradiction. assumpti
 Print Assumptions no_deadlock.
 Print Assumptions step_decreases.
 
-(* the regenerated skeleton of the pinned sources *)
-Definition api_skeletons : list program := [
-  [Acq; Rel]; [Acq; Rel]; [Acq; Rel]; []; [Acq; Rel]; [Acq; Rel]; [Acq; Rel]; [Acq; Rel]; [Acq; Rel];
-  [Acq; Rel; Acq; Rel]; [Acq; Rel]; [Acq; Rel]; [Acq; Rel; Acq; Rel] ].
-Lemma skel_ok : forallb well_bracketed api_skeletons = true. Proof. vm_compute. reflexivity. Qed.
 Example nested_rejected : well_bracketed [Acq; Acq; Rel; Rel] = false. Proof. reflexivity. Qed.
+Example unknown_rejected : well_bracketed [Acq; Unknown; Rel] = false. Proof. reflexivity. Qed.
